@@ -25,7 +25,7 @@ import (
 func init() {
 	core.Register(&core.Property{
 		ID:   "C10",
-		Rule: "collections obtained from every element path of generated resources of all R4 types (primitive, complex, with structural duplicates) and from %env collections (integers, decimals of different scale, strings, mixed, duplicates): count/empty/exists; first=[0]=take(1), tail=skip(1), last=skip(count()-1); take(n)++skip(n)=c for n in [-3,count+3] ∪ {MinInt32,MaxInt32}; where/exists/all against the harness' own filtering for criteria field.exists(), field = literal, $this = literal; select(e) = concatenation of per-item select; extension(u) = extension.where(url=u); distinct/isDistinct, exclude, intersect against equality classes computed from the JSON values / structural equality; no nil item in any result. mixed-type resource collections for select / exists / where, value-less primitive elements, url edge cases of extension(u), focus-dependent skip / take arguments; distinct_nontrivial = distinct (resource type, path, law) applications on collections with at least two items",
+		Rule: "collections obtained from every element path of generated resources of all R4 types (primitive, complex, with structural duplicates) and from %env collections (integers, decimals of different scale, strings, mixed, duplicates): count/empty/exists; first=[0]=take(1), tail=skip(1), last=skip(count()-1); take(n)++skip(n)=c for n in [-3,count+3] ∪ {MinInt32,MaxInt32}; where/exists/all against the harness' own filtering for criteria field.exists(), field = literal, $this = literal; select(e) = concatenation of per-item select; extension(u) = extension.where(url=u); distinct/isDistinct, exclude, intersect against equality classes computed from the JSON values / structural equality; no nil item in any result. mixed-type resource collections for select / exists / where, value-less primitive elements, url edge cases of extension(u), focus-dependent skip / take arguments; projections that hand on a prefix / suffix of the caller's own collection (%c.select(%c.take(k))) with %c read again afterwards; distinct_nontrivial = distinct (resource type, path, law) applications on collections with at least two items",
 		Assumptions: []string{"equality classes for the set functions are computed from JSON values (strings, numbers numerically, booleans) and proto.Equal for complex elements; collections of date/time primitives are excluded from the set-function checks (their equality depends on precision/offset rules covered by C05)",
 			"intersect may return primitive elements of c as System values; it returns c's items (never the argument's equal copies), with c's type and precision, in c's order"},
 		Run:    runC10,
